@@ -74,11 +74,13 @@ long rect_block(Ctx& X, const Weak_orders& W, long blk, int r, int cN, const Tra
     X.current_input("ranks(C order)=" + lvs);
     Input_txt txt{r, cN, &vals};
     Expected E = expected_of(r, cN, vals);
-    check_rectangle<double, Index>(X, r, cN, vals, E, txt);
+    const bool ok = check_rectangle<double, Index>(X, r, cN, vals, E, txt);
     c.count("weak_orders.rect");
     if (k < n) c.count("weak_orders.with_ties");
+    if (!ok) c.count("weak_orders.rect.violating");
     if (r == 2 || cN == 2) { c.count("weak_orders.rect.side_of_2");
-      if (shared_corner_min_not_last(r, cN, vals)) c.count("weak_orders.rect.shared_corner_min_not_last"); }
+      if (shared_corner_min_not_last(r, cN, vals)) { c.count("weak_orders.rect.shared_corner_min_not_last");
+        if (!ok) c.count("weak_orders.rect.violating_with_shared_corner_min_not_last"); } }
     count_neighbour_patterns(c, r, cN, vals);
     bool h1 = false; for (auto& i : E.offdiag) if (i.dim == 1) h1 = true;
     if (h1) { ++with_h1; c.count("weak_orders.with_dim1_interval"); }
